@@ -15,6 +15,7 @@ import (
 	"bytes"
 	"fmt"
 	"html/template"
+	"os"
 	"strings"
 	"sync"
 	"testing"
@@ -24,14 +25,25 @@ import (
 )
 
 type c14Input struct {
-	name string
-	text []byte
+	name   string
+	text   []byte
+	mkOpts func() *Opts // nil: &Opts{NameArguments: true}
 }
+
+func (in *c14Input) opts() *Opts {
+	if in.mkOpts != nil {
+		return in.mkOpts()
+	}
+	return &Opts{NameArguments: true}
+}
+
+// c14FSRoot is a scratch file tree shared by the inputs that guess paths.
+var c14FSRoot string
 
 func c14Inputs() []c14Input {
 	env := genEnv()
 	var out []c14Input
-	add := func(name string, b []byte) { out = append(out, c14Input{name, b}) }
+	add := func(name string, b []byte) { out = append(out, c14Input{name: name, text: b}) }
 	g := func(id int, state, fn, args, file string, line int) string {
 		return fmt.Sprintf("goroutine %d [%s]:\n%s(%s)\n\t%s:%d +0x1\n\n", id, state, fn, args, file, line)
 	}
@@ -44,6 +56,14 @@ func c14Inputs() []c14Input {
 	add("race-1", append(append([]byte("out\n"), rc.Bytes()...), "after\n"...))
 	rc2, _ := gen.GenRace(fixedChooser{"ops": 1, "section-order-0": 2, "op2.write": 1, "op0.frames": 1})
 	add("race-2", rc2.Bytes())
+	if c14FSRoot != "" {
+		R := c14FSRoot
+		// path guessing with two GOPATHs; the files are found under the second one and under a module
+		out = append(out, c14Input{name: "fs-two-gopaths", text: []byte(g(1, "running", "example.com/b.B", "0x1", "/ci/gp/src/example.com/b/b.go", 3) + g(2, "select", "example.com/m.X", "0x1", R+"/m/x.go", 10) + g(3, "select", "example.com/a.A", "0x2", "/ci/gp1/src/example.com/a/a.go", 4) + g(4, "select", "fmt.Println", "", "/ci/go/src/fmt/print.go", 5)),
+			mkOpts: func() *Opts {
+				return &Opts{NameArguments: true, GuessPaths: true, LocalGOROOT: R + "/goroot", LocalGOPATHs: []string{R + "/gp1", R + "/gp2"}}
+			}})
+	}
 	return out
 }
 
@@ -101,13 +121,18 @@ func c14Globals() string {
 		reRoutineHeader, reMinutes, reUnavail, reFile, reCreated, reFunc, reRaceOperationHeader, reRacePreviousOperationHeader, reRaceGoroutine, reModule, reMethodSymbol, testMainSrc)
 }
 
-func c14State(a, b *Snapshot, opts *Opts) string {
-	return canonSnapshot(a) + "\n--\n" + canonSnapshot(b) + "\n--\n" + fmt.Sprintf("%+v", *opts) + "\n--\n" + c14Globals()
+func c14State(a, b *Snapshot, optsA, optsB *Opts) string {
+	return canonSnapshot(a) + "\n--\n" + canonSnapshot(b) + "\n--\n" + fmt.Sprintf("%+v %+v", *optsA, *optsB) + "\n--\n" + c14Globals()
 }
 
 func TestVerifC14(t *testing.T) {
 	r := h.Start("C14")
 	defer r.Finish(func(s string) { t.Error(s) })
+	if root, err := os.MkdirTemp(os.Getenv("VERIF_SCRATCH"), "c14fs"); err == nil {
+		defer os.RemoveAll(root)
+		c06FS(root)
+		c14FSRoot = root
+	}
 	inputs := c14Inputs()
 	ops := c14Ops()
 	if rv := r.ReplayFile(); rv != nil {
@@ -121,14 +146,13 @@ func TestVerifC14(t *testing.T) {
 	depth := r.Pick(3, 4)
 	r.Set("rule", fmt.Sprintf("history search: operations {Aggregate x4 levels, Aggregated.ToHTML, Snapshot.ToHTML, IsRace, ScanSnapshot with the same *Opts through a plain reader / a reader reporting EOF with the last data / a reader failing mid-way} each addressed to one of two live snapshots; all sequences of length <= %d on %d pairs of snapshots (merging buckets with shared argument slices, race snapshots); after every operation the canonical state (both snapshots deep, the shared *Opts, the package-level variables of package stack) must equal the initial state and the operation's result must equal its result on a freshly parsed snapshot. states = distinct canonical states seen; transitions = operations applied. race pass: every ordered pair and triple of the same operations on a shared snapshot and shared *Opts on real goroutines released from a barrier, free running, under -race", depth, len(inputs)))
 	r.Set("assumptions", []string{"the library has no synchronisation primitive, so a cooperative scheduler has no point inside a call to switch at: call-level interleavings are the operation sequences enumerated here", "the happens-before verdict of the race detector for synchronisation-free deterministic bodies does not depend on timing; residual limits: 4 shadow cells per word, executed paths only", "console renderers (package internal) are pure functions of the aggregation and are covered by C16"})
-	opts := &Opts{NameArguments: true}
 	states := map[string]struct{}{}
 	// fresh results
 	fresh := make([][]string, len(inputs))
 	for i := range inputs {
 		for _, op := range ops {
-			s := scanOnce(bytes.NewReader(inputs[i].text), &Opts{NameArguments: true}).snap
-			fresh[i] = append(fresh[i], op.run(s, &inputs[i], &Opts{NameArguments: true}))
+			s := scanOnce(bytes.NewReader(inputs[i].text), inputs[i].opts()).snap
+			fresh[i] = append(fresh[i], op.run(s, &inputs[i], inputs[i].opts()))
 		}
 	}
 	seq := 0
@@ -143,20 +167,21 @@ func TestVerifC14(t *testing.T) {
 			}
 			key := fmt.Sprintf("pair(%s,%s) ops%v", inputs[ia].name, inputs[ib].name, hist)
 			v := r.Check(func() *h.Viol {
-				A := scanOnce(bytes.NewReader(inputs[ia].text), opts).snap
-				B := scanOnce(bytes.NewReader(inputs[ib].text), opts).snap
+				optsA, optsB := inputs[ia].opts(), inputs[ib].opts()
+				A := scanOnce(bytes.NewReader(inputs[ia].text), optsA).snap
+				B := scanOnce(bytes.NewReader(inputs[ib].text), optsB).snap
 				if A == nil || B == nil {
 					return nil
 				}
-				init := c14State(A, B, opts)
+				init := c14State(A, B, optsA, optsB)
 				states[init] = struct{}{}
 				var names []string
 				for step, o := range hist {
 					op := ops[o%len(ops)]
-					tgt, in, fr := A, &inputs[ia], fresh[ia]
+					tgt, in, fr, opts := A, &inputs[ia], fresh[ia], optsA
 					which := "A"
 					if o >= len(ops) {
-						tgt, in, fr = B, &inputs[ib], fresh[ib]
+						tgt, in, fr, opts = B, &inputs[ib], fresh[ib], optsB
 						which = "B"
 					}
 					names = append(names, op.name+" on "+which)
@@ -177,7 +202,7 @@ func TestVerifC14(t *testing.T) {
 					if pn != "" {
 						return mk("panic:"+op.name, "panic: "+pn)
 					}
-					st := c14State(A, B, opts)
+					st := c14State(A, B, optsA, optsB)
 					states[st] = struct{}{}
 					if st != init {
 						what := "snapshot"
@@ -250,7 +275,7 @@ func c14RacePass(t *testing.T, r *h.Run, inputs []c14Input, ops []c14Op) {
 	first := true
 	for ii := range inputs {
 		in := &inputs[ii]
-		opts := &Opts{NameArguments: true}
+		opts := in.opts()
 		var base *Snapshot
 		if first {
 			var wg sync.WaitGroup
